@@ -84,14 +84,51 @@ def plan(tier, seed):
     per = 2500 if tier == "quick" else 40000
     for i in range(nrand):
         specs.append({"kind": "random", "n": per})
+    for i in range(2 if tier == "quick" else 8):
+        specs.append({"kind": "big", "n": 10 if tier == "quick" else 150})
     return specs
 
 
 def run_shard(spec, acc):
     if spec["kind"] == "exhaustive":
         exhaustive(spec, acc)
+    elif spec["kind"] == "big":
+        big(spec, acc)
     else:
         randomised(spec, acc)
+
+
+def big(spec, acc):
+    """Magnitudes: 80-250 modules, depth up to 12, hundreds of imports, batches of 10-60 subjects / objects, long names,
+    many numbered siblings (n2 / n10 / n100), one module with very many importers."""
+    rnd = random.Random(spec["seed"])
+    from ..drive import LEAF_NAMES
+
+    names = LEAF_NAMES + [f"n{i}" for i in range(130)] + ["x" * 70, "a_rather_long_package_name_" * 9]
+    for _ in range(spec["n"]):
+        mods = random_tree(rnd, 80, 250, depth=rnd.choice([3, 6, 12]), names=names)
+        cand = [m for m in mods if m != "r"]
+        hub = rnd.choice(cand)
+        imps = set(random_imports(rnd, mods, k_max=rnd.choice([60, 300, 900])))
+        for m in rnd.sample(cand, min(len(cand), rnd.randint(20, 120))):
+            if m != hub and not related(m, hub):
+                imps.add((m, hub))
+        imps = sorted(imps)
+        ev = build(mods, imps)
+        for _k in range(6):
+            skind, okind = rnd.choice(["named", "named", "sub"]), rnd.choice(["named", "named", "sub"])
+            subs = pick_unrelated(rnd, mods, rnd.randint(10, 60), kind=skind)
+            objs = pick_unrelated(rnd, mods, rnd.randint(10, 60), avoid=subs, kind=okind)
+            if len(subs) < 5 or len(objs) < 5:
+                objs = objs or pick_unrelated(rnd, mods, 3, avoid=subs)
+                if not subs or not objs:
+                    continue
+            cfg = {"verb": rnd.choice(rrule.VERBS), "dir": rnd.choice(rrule.DIRS), "exc": rnd.random() < 0.5, "subs": [(skind, s) for s in subs], "objs": [(okind, o) for o in objs], "anything": False}
+            if rnd.random() < 0.15:
+                cfg = {"verb": "should_not", "dir": cfg["dir"], "exc": False, "subs": cfg["subs"][:1], "objs": [], "anything": True}
+            _eval(ev, mods, imps, cfg, acc, list_form=True)
+            acc.count("big_cases")
+            acc.hist("big_batch_size", f"{len(cfg['subs']) // 10 * 10}+x{len(cfg['objs']) // 10 * 10}+")
 
 
 def _eval(ev, mods, imps, cfg, acc, nontrivial_key=None, list_form=None):
@@ -290,6 +327,8 @@ def floors(acc, tier):
                 why.append(f"shape {s} never observed with outcome {o}")
     if acc.counters["rule_objects_switched_between_anything_aliases"] < 100:
         why.append(f"only {acc.counters['rule_objects_switched_between_anything_aliases']} rule objects switched between the two 'anything' aliases")
+    if acc.counters["big_cases"] < 50:
+        why.append(f"only {acc.counters['big_cases']} evaluations on big architectures (80+ modules, batches of 10+)")
     if acc.counters["rules_retargeted_after_application"] < 100:
         why.append(f"only {acc.counters['rules_retargeted_after_application']} rules built by re-targeting an applied rule prefix")
     if acc.counters["c01_judged_nested_lists"] < 100:
